@@ -38,6 +38,17 @@ thread_local! {
     static QUARANTINE_NEXT: Cell<usize> = const { Cell::new(0) };
     /// switched off when an execution thread winds up (see `drain_quarantine`)
     static QUARANTINE_OFF: Cell<bool> = const { Cell::new(false) };
+    /// bytes requested (gross) since the current call into uflow began
+    static GROSS: Cell<u64> = const { Cell::new(0) };
+}
+
+/// A single call into uflow that has requested this much memory is not going to return: the
+/// thread is parked inside the allocator, so that the supervisor (or the alarm of a confirming
+/// child process) can report the call as hung instead of the machine running out of memory.
+const GROSS_CAP: u64 = 2 << 30;
+
+pub fn reset_gross() {
+    let _ = GROSS.try_with(|g| g.set(0));
 }
 
 const QUARANTINE_SLOTS: usize = 2048;
@@ -55,6 +66,18 @@ unsafe impl GlobalAlloc for Monitor {
     unsafe fn alloc(&self, layout: Layout) -> *mut u8 {
         if layout.size() == 0 && DOMAIN.try_with(|d| d.get()).unwrap_or(0) != 0 {
             let _ = ZERO_SIZE.try_with(|z| z.set(z.get() + 1));
+        }
+        let over = GROSS
+            .try_with(|g| {
+                let v = g.get().saturating_add(layout.size() as u64);
+                g.set(v);
+                v > GROSS_CAP
+            })
+            .unwrap_or(false);
+        if over && crate::watchdog::in_guarded_call_try() {
+            loop {
+                std::thread::sleep(std::time::Duration::from_secs(3600));
+            }
         }
         let pre = prefix(layout.align());
         let total = match layout.size().checked_add(pre) {
